@@ -49,7 +49,7 @@ PLANS["C04"] = {
     "props": ["C04"], "ops": ["draw"],
     "mc": [mc("C04", geoms("GQuick", "GThorough"), ports({"api": 1, "chars": 6}, {"api": 1, "chars": 2, "bytes": 3}),
               textlen={"quick": 2, "thorough": 3}, disp=True)],
-    "gen": [walk("C04", 160, 4000), walk("C04", 80, 2000, port="chars"), walk("C04", 8, 200, geom="large", steps=60)],
+    "gen": [gen("star", 12, 300, focus="C04", steps=40, every=6, per=24), walk("C04", 160, 4000), walk("C04", 80, 2000, port="chars"), walk("C04", 8, 200, geom="large", steps=60)],
     "rule": "MC: every text of length <= 2 (thorough: 3) over {narrow, wide, combining, ZWSP, NUL, DEL, >U+00FF} from filled / sparse / "
             "wide-pair grids x cursor everywhere incl. pending wrap x regions x DECAWM/IRM/LNM; each vector also with display() "
             "interposed in the setup (materialised vs never-written cells); TV: seeded text-heavy random walks",
@@ -58,7 +58,7 @@ PLANS["C05"] = {
     "apalache": True,
     "props": ["C05"], "ops": ["cuu", "cud", "cuf", "cub", "cnl", "cpl", "cha", "vpa", "cup", "bs", "cr"],
     "mc": [mc("C05", geoms("GQuick", "GThorough"), ports({"api": 1, "chars": 2, "bytes": 5}, ALLP))],
-    "gen": [walk("C05", 160, 4000), walk("C05", 80, 2000, port="chars"), walk("C05", 16, 400, geom="large", steps=60)],
+    "gen": [gen("star", 12, 300, focus="C05", steps=40, every=6, per=24), walk("C05", 160, 4000), walk("C05", 80, 2000, port="chars"), walk("C05", 16, 400, geom="large", steps=60)],
     "rule": "MC: every movement operation x every parameter in {absent,0,1,..,size+2,9999} (both independently for CUP) from "
             "every cursor position incl. pending wrap x every region x DECOM on/off, on each geometry; TV: seeded random walks",
 }
@@ -66,7 +66,7 @@ PLANS["C06"] = {
     "props": ["C06"], "ops": ["ind", "lf", "ri", "il", "dl", "decstbm"],
     "mc": [mcseq("C06seq", {"quick": 3, "thorough": 4}, ports({"api": 1, "chars": 3}, {"api": 1, "chars": 3}), disp=True),
            mc("C06", geoms("GRowsQuick", "GRows"), ports({"api": 1, "chars": 3}, ALLP), disp=True)],
-    "gen": [walk("C06", 160, 4000), walk("C06", 80, 2000, port="chars"), walk("C06", 8, 200, geom="large", steps=60)],
+    "gen": [gen("star", 12, 300, focus="C06", steps=40, every=6, per=24), walk("C06", 160, 4000), walk("C06", 80, 2000, port="chars"), walk("C06", 8, 200, geom="large", steps=60)],
     "rule": "MC: IND/LF/RI, IL/DL with counts {absent,0,..,L+2,9999}, DECSTBM with every (top,bottom) pair, from grids whose every "
             "cell holds a distinct coloured marker (filled and sparse), every region, every cursor row; vectors also replayed with "
             "display() interposed in the setup",
@@ -74,14 +74,14 @@ PLANS["C06"] = {
 PLANS["C07"] = {
     "props": ["C07"], "ops": ["ed", "el", "ech"],
     "mc": [mc("C07", geoms("GRowsQuick", "GRows"), ports({"api": 1, "chars": 3}, ALLP), disp=True)],
-    "gen": [walk("C07", 160, 4000), walk("C07", 80, 2000, port="chars")],
+    "gen": [gen("star", 12, 300, focus="C07", steps=40, every=6, per=24), walk("C07", 160, 4000), walk("C07", 80, 2000, port="chars")],
     "rule": "MC: ED/EL selectors {absent,0..5,9999}, ECH counts {absent,0,..,C+2,9999} from marker-filled coloured grids, cursor at "
             "representative columns incl. pending wrap, with/without region and DECOM, coloured current rendition",
 }
 PLANS["C08"] = {
     "props": ["C08"], "ops": ["sgr"],
     "mc": [mc("C08", geoms("GTiny", "GTiny"), ports({"api": 1, "chars": 1}, {"api": 1, "chars": 2, "bytes": 5}), sgrmax={"quick": 300, "thorough": 9999})],
-    "gen": [walk("C08", 200, 5000), walk("C08", 100, 2500, port="chars")],
+    "gen": [gen("star", 12, 300, focus="C08", steps=40, every=6, per=24), walk("C08", 200, 5000), walk("C08", 100, 2500, port="chars")],
     "rule": "MC: every single code 0..110 and {255,256,1000,9999}, all 38/48;5;n and ;2;r;g;b forms incl. out-of-range and truncated "
             "tails, documented pairs, from six rendition states (incl. DECSCNM); Decl_C08 is an independent per-attribute reading",
 }
@@ -89,7 +89,7 @@ PLANS["C10"] = {
     "props": ["C10"], "ops": ["display"],
     "mc": [mcseq("C13seq", {"quick": 3, "thorough": 4}, ports({"api": 1}, {"api": 1})), mcseq("C16seq", {"quick": 3, "thorough": 3}, ports({"api": 3}, {"api": 1})), mcseq("C06seq", {"quick": 3, "thorough": 3}, ports({"api": 2}, {"api": 1})),
            mc("C10", geoms("GQuick", "GThorough"), ports(API, API), disp=True)],
-    "gen": [gen("paired", 120, 3000, steps=60), gen("paired", 60, 1500, steps=60, focus="C10"), walk("C10", 80, 2000)],
+    "gen": [gen("star", 12, 300, focus="C10", steps=40, every=6, per=24), gen("paired", 120, 3000, steps=60), gen("paired", 60, 1500, steps=60, focus="C10"), walk("C10", 80, 2000)],
     "rule": "MC: Render against a second, column-indexed definition on grids with wide pairs, orphaned placeholders, combining "
             "sequences, wide characters in the last column; TV: paired runs of the same history with display() at no position and "
             "at a random subset of positions must end in the same state; display output = Render(pre); state unchanged",
@@ -97,7 +97,7 @@ PLANS["C10"] = {
 PLANS["C12"] = {
     "props": ["C12"], "ops": ["sm", "rm"],
     "mc": [mc("C12", geoms("GSmall", "GSmall"), ports({"api": 1, "chars": 1}, {"api": 1, "chars": 2, "bytes": 5}), modemax={"quick": 40, "thorough": 9999})],
-    "gen": [walk("C12", 160, 4000), walk("C12", 80, 2000, port="chars")],
+    "gen": [gen("star", 12, 300, focus="C12", steps=40, every=6, per=24), walk("C12", 160, 4000), walk("C12", 80, 2000, port="chars")],
     "rule": "MC: SM/RM of every mode number 0..40 and {96,160,192,224,800,1049,2004,9999} x {private, ANSI}, and mode lists, from "
             "seven representative states (region, DECOM, DECSCNM, DECCOLM, coloured rendition)",
 }
@@ -105,7 +105,7 @@ PLANS["C13"] = {
     "props": ["C13"], "ops": ["ich", "dch"],
     "mc": [mcseq("C13seq", {"quick": 3, "thorough": 4}, ports({"api": 1, "chars": 3}, {"api": 1, "chars": 3}), disp=True),
            mc("C13", geoms("GCols", "GCols"), ports({"api": 1, "chars": 2}, ALLP), disp=True)],
-    "gen": [walk("C13", 160, 4000), walk("C13", 80, 2000, port="chars"), walk("C16", 80, 2000)],
+    "gen": [gen("star", 12, 300, focus="C13", steps=40, every=6, per=24), walk("C13", 160, 4000), walk("C13", 80, 2000, port="chars"), walk("C16", 80, 2000)],
     "rule": "MC: ICH/DCH counts {absent,0,..,C+2,9999} on rows of width 1..6 with distinct coloured markers (filled and sparse), cursor "
             "incl. pending wrap; TV: random walks mixing ICH/DCH/IRM-draw/EL and grow-resizes (a discarded cell that reappears is a "
             "step the dense-grid specification cannot explain)",
@@ -114,7 +114,7 @@ PLANS["C14"] = {
     "props": ["C14"], "ops": ["decsc", "decrc"],
     "mc": [mcseq("C14seq", {"quick": 3, "thorough": 4}, ports({"api": 1, "chars": 3}, {"api": 1, "chars": 3})),
            mc("C14", geoms("GSmall", "GSmall"), ports({"api": 1, "chars": 2}, ALLP))],
-    "gen": [walk("C14", 160, 4000), walk("C14", 80, 2000, port="chars")],
+    "gen": [gen("star", 12, 300, focus="C14", steps=40, every=6, per=24), walk("C14", 160, 4000), walk("C14", 80, 2000, port="chars")],
     "rule": "MC: DECSC/DECRC after every history a;b;c with a,b,c from {save, restore, move+SGR, draw at the edge, SO+designate, "
             "DECOM/DECAWM/DECTCEM changes, region, shrink}; stack LIFO, clamping, mode re-enabling",
 }
@@ -130,7 +130,7 @@ PLANS["C16"] = {
     "props": ["C16"], "ops": ["resize"],
     "mc": [mcseq("C16seq", {"quick": 3, "thorough": 3}, ports({"api": 2}, {"api": 1}), disp=True), mcseq("C13seq", {"quick": 3, "thorough": 4}, ports({"api": 2}, {"api": 1})),
            mc("C16", geoms("GRowsQuick", "GRows"), ports(API, API), disp=True)],
-    "gen": [walk("C16", 200, 5000), walk("C13", 60, 1500)],
+    "gen": [gen("star", 12, 300, focus="C16", steps=40, every=6, per=24), walk("C16", 200, 5000), walk("C13", 60, 1500)],
     "rule": "MC: resize to every target 1..L+2 x 1..C+2 (and absent) from filled/sparse marker grids with region, DECOM, pending-wrap "
             "cursor; TV: random walks with resize sequences (shrink-then-grow), DECCOLM round trips",
 }
@@ -138,7 +138,7 @@ PLANS["C18"] = {
     "props": ["C18"], "ops": ["ht", "hts", "tbc"],
     "mc": [mc("C18", geoms("GCols", "GCols"), ports({"api": 1, "chars": 1}, ALLP)),
            mc("C18w", geoms("GWideQuick", "GWide"), ports({"api": 1, "chars": 3}, {"api": 1, "chars": 2}))],
-    "gen": [walk("C18", 160, 4000), walk("C18", 80, 2000, port="chars"), walk("C18", 40, 1000, geom="large", steps=60)],
+    "gen": [gen("star", 12, 300, focus="C18", steps=40, every=6, per=24), walk("C18", 160, 4000), walk("C18", 80, 2000, port="chars"), walk("C18", 40, 1000, geom="large", steps=60)],
     "rule": "MC: HT/HTS/TBC{absent,0..4,9999} from every cursor column incl. pending wrap; TV: random walks with HTS/TBC edits and "
             "width changes (resize, DECCOLM) between setting a stop and using it, widths up to 140",
 }
@@ -148,7 +148,7 @@ PLANS["C20"] = {
            mcrec("graph", {"quick": 4, "thorough": 5}, True, ports({"chars": 1, "bytes": 3}, {"chars": 1, "chars1": 2, "bytes": 2})),
            mcrec("graph", {"quick": 4, "thorough": 5}, False, ports({"chars": 1, "bytes": 3}, {"chars": 1, "chars1": 2, "bytes": 2})),
            mcrec("pairs", 1, False, ports({"chars": 1}, {"chars": 1, "bytes": 1}))],
-    "gen": [walk("C20", 120, 3000), walk("C20", 120, 3000, port="chars", utf8=0), walk("C20", 60, 1500, port="chars"),
+    "gen": [gen("star", 12, 300, focus="C20", steps=40, every=6, per=24), walk("C20", 120, 3000), walk("C20", 120, 3000, port="chars", utf8=0), walk("C20", 60, 1500, port="chars"),
             walk("C20", 60, 1500, port="bytes", utf8=0)],
     "rule": "MC: all 256 code points (+ three above 255) x 4 tables x {G0,G1} x {SI, SO, SO;SI} drawn one at a time, every designator "
             "final incl. unsupported ones; TV: 8-bit and UTF-8 parser walks (shifts/designators delivered in 8-bit mode only)",
@@ -164,7 +164,7 @@ PLANS["C17"] = {
            mc("C13", geoms("GCols", "GCols"), ports({"api": 1}, {"api": 1})),
            mc("C12", geoms("GSmall", "GSmall"), ports({"api": 1, "chars": 1}, ALLP)),
            mc("C16", geoms("GRowsQuick", "GRows"), ports({"api": 2}, {"api": 1}))],
-    "gen": [walk("C17", 200, 5000), walk("C17", 100, 2500, port="chars"), walk("C04", 60, 1500), walk("C17", 8, 200, geom="large", steps=60)],
+    "gen": [gen("star", 12, 300, focus="C17", steps=40, every=6, per=24), walk("C17", 200, 5000), walk("C17", 100, 2500, port="chars"), walk("C04", 60, 1500), walk("C17", 8, 200, geom="large", steps=60)],
     "rule": "the history variable need (rows whose appearance changed since the embedder last cleared the set) is carried by TLC over "
             "every recorded trace; need <= dirty <= rows is asserted after every event; the driver clears the set at random moments; "
             "vectors of the C04/C06/C07/C12/C13/C16 models start from a cleared set",
@@ -181,7 +181,7 @@ PLANS["C09"] = {
            mc("C14", geoms("GSmall", "GSmall"), ports({"api": 1}, ALLP)),
            mc("C12", geoms("GSmall", "GSmall"), ports({"api": 1, "chars": 1}, ALLP)),
            mc("C08", geoms("GTiny", "GTiny"), ports({"api": 1, "chars": 1}, ALLP))],
-    "gen": [walk("", 200, 5000), walk("C16", 100, 2500), walk("", 100, 2500, port="chars"), gen("soup", 100, 3000),
+    "gen": [gen("star", 12, 300, focus="", steps=40, every=6, per=24), walk("", 200, 5000), walk("C16", 100, 2500), walk("", 100, 2500, port="chars"), gen("soup", 100, 3000),
             walk("", 12, 300, geom="large", steps=60), walk("C18", 60, 1500)],
     "rule": "WellFormed (cursor, margins, dirty indices, grid shape, colour values, display() row count) is asserted by TLC after "
             "construction and after every event of every trace: API walks with arguments absent or 0..9999, parser walks, byte soup, "
@@ -200,7 +200,7 @@ PLANS["C01"] = {
            mc("C16", geoms("GRowsQuick", "GRows"), ports({"api": 2}, {"api": 1}), disp=True, display_after=True),
            mc("C08", geoms("GTiny", "GTiny"), ports({"api": 1, "chars": 1}, ALLP)),
            mc("C20", geoms("GTiny", "GTiny"), ports({"api": 3}, {"api": 1}))],
-    "gen": [gen("soup", 400, 20000), walk("", 200, 6000), walk("", 100, 3000, port="chars"), walk("", 100, 3000, port="bytes", utf8=0),
+    "gen": [gen("star", 12, 300, focus="", steps=40, every=6, per=24), gen("soup", 400, 20000), walk("", 200, 6000), walk("", 100, 3000, port="chars"), walk("", 100, 3000, port="bytes", utf8=0),
             gen("recsoup", 200, 6000), gen("recsoup", 200, 6000, port="bytes"), walk("", 12, 400, geom="large", steps=60),
             gen("soup", 12, 400, geom="large"), gen("captured", 7, 140, maxbytes=1500)],
     "level": "exploration",
